@@ -39,4 +39,14 @@ Definition model_obs (c : case) : list Z :=
   | _, _ => [-999]
   end.
 
-Definition case_ok (c : case) : bool := zlist_eqb (model_obs c) (c_expect c).
+(* the implementation's failures carry a fine kind derived from the TEXT of the panic / error; a text the driver does not
+   recognise is reported as the generic code 99 and is compatible with any failure the model predicts (the property requires a
+   loud failure, not a particular message).  Value-versus-failure differences and differing recognised kinds are mismatches. *)
+Definition generic_failure : Z := 99.
+Definition model_failed (l : list Z) : bool :=
+  match l with [k] => (0 <? k) && negb (k =? err_code EFuel) | _ => false end.
+Definition case_ok (c : case) : bool :=
+  match c_expect c with
+  | [k] => if k =? generic_failure then model_failed (model_obs c) else zlist_eqb (model_obs c) (c_expect c)
+  | _ => zlist_eqb (model_obs c) (c_expect c)
+  end.
